@@ -104,7 +104,7 @@ PUBLIC_RE = re.compile(r'^/(healthcheck|metrics|swagger|openapi[^/]*|docs(/.*)?|
 OWNER_WRITE_RE = re.compile(r'/(jobs/create|job-groups/create|updates/create|update-fast|commit|close)$')
 AUTHENTICATED_RE = re.compile(r'^/api/v\d+alpha/(batches(/completed|/create|/create-fast)?|supported_regions|default_region'
                               r'|billing_projects(/\{billing_project\})?)$|^/?$|^/(batches|billing|billing_limits|billing_projects)$')
-ALWAYS_REFUSED = ('unauthenticated', 'garbage_token', 'inactive', 'deleted_user')
+ALWAYS_REFUSED = ('unauthenticated', 'garbage_token', 'inactive', 'deleted_user', 'inactive_developer')
 LOOKALIKES = ('a', 'au', 'aut', 'th', 'uth', 'h', 'u', 'ut', 'authx', 'xauth', 'AUTH', 'Auth')
 
 
@@ -206,6 +206,8 @@ def run(ctx):
     D = User(6, 'dev', is_developer=True, projects=['bp2'])
     A = User(7, 'auth', projects=[])
     V = User(8, 'victim', projects=['bp1'])  # valid member of bp1 until it is revoked mid-run
+    # a developer whose account was deactivated: the developer-only routes must refuse it like any inactive user
+    ID = User(9, 'inactivedev', state='inactive', is_developer=True, projects=['bp1'])
     # active non-developers whose names are near misses of the service identity `auth` (those the repository's own
     # username validation accepts)
     benv.setup()
@@ -217,7 +219,7 @@ def run(ctx):
         def is_valid_username(name):
             return bool(re.fullmatch(r'[A-Za-z0-9]+(-[A-Za-z0-9]+)*', name))
     lookalikes = [User(20 + i, name, projects=[]) for i, name in enumerate(LOOKALIKES) if is_valid_username(name)]
-    users = [O, M, N, I, X, D, A, V] + lookalikes
+    users = [O, M, N, I, X, D, A, V, ID] + lookalikes
     w = BatchWorld(ctx, n_tokens=(1, 3, 200)[cfg.draw(3)], users=users, with_driver=False)
     token_replay = bool(ctx.params.get('token_replay', True))
     idents = {
@@ -225,6 +227,7 @@ def run(ctx):
         'inactive': Ident('inactive', I), 'deleted_user': Ident('deleted_user', X),
         'unauthenticated': Ident('unauthenticated'), 'garbage_token': Ident('garbage_token', None, 'garbage'),
         'developer': Ident('developer', D), 'auth_service': Ident('auth_service', A),
+        'inactive_developer': Ident('inactive_developer', ID),
     }
     IDENT_ORDER = ['unauthenticated', 'garbage_token', 'inactive', 'non_member', 'member', 'developer', 'deleted_user',
                    'auth_service', 'owner']
@@ -232,6 +235,8 @@ def run(ctx):
     if lookalikes:
         IDENT_ORDER.append('lookalike_of_auth')
         IDENT_WEIGHTS.append(3)
+    IDENT_ORDER.append('inactive_developer')
+    IDENT_WEIGHTS.append(2)
     revoked_tokens = set()
     st = {'commits': 0, 'commit_tables': [], 'req': 0, 'tok': 0, 'stop': False, 'fs_inflight': 0, 'conc': 0, 'conc_epoch': 0}
     served = {}
